@@ -38,7 +38,13 @@ Inductive kernel_fx :=
 | FxResumeProcess
 | FxNewInterruption
 | FxRaiseStopValue
-| FxRaiseEventValue.
+| FxRaiseEventValue
+| FxCopyOk
+| FxCopyValue
+| FxRaiseNotGenerator
+| FxSetCallbacksEmpty
+| FxSetGenerator
+| FxNewInitialize.
 
 (* Environment.schedule  (def schedule(self, event: Event, priority: EventPriority=NORMAL, delay: SimTime=0) -> None:) *)
 Definition gen_Environment_schedule (now : Q) (delay : Q) (priority : Z)
@@ -126,3 +132,20 @@ Definition gen_StopSimulation_callback (ok : bool)
   (if ok
    then [FxRaiseStopValue]
    else [FxRaiseEventValue]).
+
+(* Event.trigger  (def trigger(self, event: 'Event') -> None:) *)
+Definition gen_Event_trigger
+  : list kernel_fx :=
+  [FxCopyOk; FxCopyValue; FxSchedule (1)%Z (0 # 1)].
+
+(* Process.__init__  (def __init__(self, env: 'Environment', generator: ProcessGenerator):) *)
+Definition gen_Process_init (is_generator : bool)
+  : list kernel_fx :=
+  (if (negb is_generator)
+   then [FxRaiseNotGenerator]
+   else [FxSetEnv; FxSetCallbacksEmpty; FxSetGenerator; FxNewInitialize]).
+
+(* Process.is_alive  (@property) *)
+Definition gen_Process_is_alive (pending : bool)
+  : list kernel_fx * bool :=
+  ([], pending).
